@@ -99,16 +99,23 @@ impl Fmt for IpcFmt {
             ($w:expr, $unwrap:expr) => {{
                 let mut w = $w;
                 let mut out = WOut::ok();
+                let mut acked = 0;
                 for b in &self.wl.batches {
                     if let Err(e) = w.write(b) {
                         out = WOut::fail("write", e);
                         break;
                     }
+                    acked += b.num_rows();
                 }
                 if out.api_ok {
                     if let Err(e) = w.finish() {
                         out = WOut::fail("finish", e);
                     }
+                }
+                out.acked_rows = acked;
+                if out.failed_call == Some("write") && post == Post::IntoInner {
+                    // the caller finishes the file / stream although a write failed
+                    out.finish_ok_after_error = w.finish().is_ok();
                 }
                 match post {
                     Post::Drop if !out.api_ok => drop(w),
